@@ -221,7 +221,7 @@ Proof. split; [exact tie_cleartag_after_handle|exact tie_cleartag_before_send]. 
 Theorem C06_tie_starttag_and_spawn_under_recvMu :
   starttag_under_recvMu = true /\ spawn_before_unlock = true /\ recv_under_recvMu = true /\ handle_after_unlock = true /\ idle_counted = true.
 Proof. exact (conj tie_starttag_under_recvMu (conj tie_spawn_before_unlock (conj tie_recv_under_recvMu (conj tie_handle_after_unlock tie_idle_counted)))). Qed.
-Theorem C06_tie_shared_nothing : loop_state = ["cs.ClearTag"; "cs.StartTag"; "cs.TagDone"; "cs.handle"; "cs.handleRequest"; "cs.handleRequests"; "cs.messageSize"; "cs.pendingWg"; "cs.r"; "cs.recvIdle"; "cs.recvMu"; "cs.recvShutdown"; "cs.sendMu"; "cs.server.log"; "cs.t"; "cs.tagMu"; "cs.tags"; "var dataPool"; "var msgDotLRegistry"]%string.
+Theorem C06_tie_shared_nothing : loop_state = ["cs.ClearTag"; "cs.StartTag"; "cs.TagDone"; "cs.frameLimit"; "cs.handle"; "cs.handleRequest"; "cs.handleRequests"; "cs.pendingWg"; "cs.r"; "cs.recvIdle"; "cs.recvMu"; "cs.recvShutdown"; "cs.sendMu"; "cs.server.log"; "cs.t"; "cs.tagMu"; "cs.tags"; "var dataPool"; "var msgDotLRegistry"]%string.
 Proof. exact tie_loop_state. Qed.
 Theorem C06_tie_events : handleRequest_events = expected_events.
 Proof. exact tie_events. Qed.
